@@ -1,7 +1,9 @@
 package core
 
 import (
+	"fmt"
 	"go/token"
+	"os"
 	"sort"
 	"strings"
 
@@ -60,9 +62,28 @@ func (w *World) EnableInlining(mentioned func(key, name string) bool) int {
 			}
 		}
 	}
+	pre := map[*ssa.Function]bool{}
+	preCandidate := func(h *ssa.Function) bool {
+		if v, done := pre[h]; done {
+			return v
+		}
+		r := h != nil && h.Blocks != nil && h.Parent() == nil && h.Pkg != nil &&
+			strings.HasPrefix(h.Pkg.Pkg.Path(), Module) && !strings.Contains(h.Pkg.Pkg.Path(), "/mocks/") &&
+			!token.IsExported(h.Name()) && h.Name() != "init" && !strings.HasPrefix(h.Name(), "init#") &&
+			!mentioned(FuncKey(h), h.Name())
+		pre[h] = r
+		return r
+	}
+	// a cycle of inlinable functions cannot be inlined; recursion that passes through a function that is not
+	// inlinable (an anchor, an exported function) is an ordinary call there and does no harm
 	recursive := func(h *ssa.Function) bool {
 		seen := map[*ssa.Function]bool{}
-		work := append([]*ssa.Function{}, static[h]...)
+		var work []*ssa.Function
+		for _, g := range static[h] {
+			if preCandidate(g) {
+				work = append(work, g)
+			}
+		}
 		for len(work) > 0 {
 			g := work[len(work)-1]
 			work = work[:len(work)-1]
@@ -73,7 +94,11 @@ func (w *World) EnableInlining(mentioned func(key, name string) bool) int {
 				continue
 			}
 			seen[g] = true
-			work = append(work, static[g]...)
+			for _, k := range static[g] {
+				if preCandidate(k) {
+					work = append(work, k)
+				}
+			}
 		}
 		return false
 	}
@@ -82,10 +107,7 @@ func (w *World) EnableInlining(mentioned func(key, name string) bool) int {
 		if v, done := ok[h]; done {
 			return v
 		}
-		r := h != nil && h.Blocks != nil && h.Parent() == nil && h.Pkg != nil &&
-			strings.HasPrefix(h.Pkg.Pkg.Path(), Module) && !strings.Contains(h.Pkg.Pkg.Path(), "/mocks/") &&
-			!token.IsExported(h.Name()) && h.Name() != "init" && !strings.HasPrefix(h.Name(), "init#") &&
-			!mentioned(FuncKey(h), h.Name()) && !recursive(h)
+		r := preCandidate(h) && !recursive(h)
 		ok[h] = r
 		return r
 	}
@@ -104,6 +126,9 @@ func (w *World) EnableInlining(mentioned func(key, name string) bool) int {
 					continue
 				}
 				h := c.Call.StaticCallee()
+				if dbg := os.Getenv("DSCHECK_DEBUG_INLINE_FN"); dbg != "" && h != nil && strings.Contains(h.Name(), dbg) {
+					fmt.Printf("inline? %s from %s: blocks=%v parent=%v exported=%v mentioned=%v recursive=%v samepkg=%v\n", FuncKey(h), FuncKey(f), h.Blocks != nil, h.Parent() != nil, token.IsExported(h.Name()), mentioned(FuncKey(h), h.Name()), recursive(h), h.Pkg == tf.Pkg)
+				}
 				if h == nil || h == f || !candidate(h) || h.Pkg != tf.Pkg {
 					continue
 				}
@@ -113,6 +138,7 @@ func (w *World) EnableInlining(mentioned func(key, name string) bool) int {
 		}
 	}
 	inl = st
+	returnFactCache = map[*ssa.Return][]resultFact{}
 	return len(st.callee)
 }
 
